@@ -462,6 +462,9 @@ func drawCase(t *rapid.T) Case {
 				// search continues behind that finding
 				noBytes(s.Type)
 			}
+			if rapid.IntRange(0, 2).Draw(t, "hostilekeys") == 0 {
+				hostileMapKeys(t, s.Type)
+			}
 		}
 		cs.Subjects = append(cs.Subjects, s)
 	}
@@ -498,6 +501,31 @@ func retag(t *tyx.TypeR) *tyx.TypeR {
 		out.Fields = append(out.Fields, g)
 	}
 	return out
+}
+
+// hostileMapKeys renames map keys so that they need an escape in JSON text (two escaped strings
+// in one document go through the parser's scratch buffer one after the other).
+func hostileMapKeys(t *rapid.T, ty *tyx.TypeR) {
+	var inVal func(v *tyx.ValueR)
+	inVal = func(v *tyx.ValueR) {
+		if v == nil {
+			return
+		}
+		for i, k := range v.Keys {
+			if rapid.Bool().Draw(t, "hostilekey") {
+				v.Keys[i] = k + rapid.SampledFrom([]string{"<b", ">d", "\"q", "&y", "\ttab", "\\", "\u2028", "é\n"}).Draw(t, "keysuffix")
+			}
+		}
+		for _, e := range v.Elems {
+			inVal(e)
+		}
+	}
+	for i := range ty.Fields {
+		inVal(ty.Fields[i].Val)
+		if ty.Fields[i].Sub != nil {
+			hostileMapKeys(t, ty.Fields[i].Sub)
+		}
+	}
 }
 
 func noBytes(t *tyx.TypeR) {
